@@ -78,6 +78,11 @@ type Sim struct {
 	ExitAt   map[string]time.Duration // when a named goroutine finished (simulated time)
 	StartAt  map[string]time.Duration
 	ExitStep  map[string]int
+	// NoYield > 0 suppresses the inserted yield points: an observer (harness code running
+	// on a simulated goroutine) reads several pieces of repository state as one atomic
+	// snapshot. Only one goroutine runs at a time, so a plain counter is enough.
+	NoYield int
+	parksBy map[string]int // interception points passed, per goroutine name
 	StartStep map[string]int
 	anon     int
 
@@ -113,6 +118,7 @@ func New(seed uint64, tape *Tape) *Sim {
 		ExitAt:   map[string]time.Duration{},
 		StartAt:  map[string]time.Duration{},
 		ExitStep:  map[string]int{},
+		parksBy:   map[string]int{},
 		StartStep: map[string]int{},
 		Stats:    map[string]int{},
 		MaxSteps: 40000,
@@ -197,6 +203,20 @@ func (s *Sim) Tracef(format string, a ...any) {
 	}
 	s.mu.Unlock()
 	raceOn()
+}
+
+// ParksOf returns how many interception points the named goroutine has passed. Between
+// two observations by one goroutine, "steps elapsed == its own parks" means that nothing
+// else ran in between.
+//
+//go:norace
+func (s *Sim) ParksOf(name string) int {
+	raceOff()
+	s.mu.Lock()
+	n := s.parksBy[name]
+	s.mu.Unlock()
+	raceOn()
+	return n
 }
 
 // StepNow returns the global event sequence number (scheduler step).
@@ -383,6 +403,7 @@ func (s *Sim) Park(site string) {
 		return
 	}
 	s.parked = append(s.parked, o)
+	s.parksBy[name]++
 	s.mu.Unlock()
 	select {
 	case s.arrival <- struct{}{}:
@@ -395,7 +416,7 @@ func (s *Sim) Park(site string) {
 // Yield is Park for sites inserted into repository code; only a per-run
 // subset of the sites is active.
 func (s *Sim) Yield(site string) {
-	if s.freeRun {
+	if s.freeRun || s.NoYield > 0 {
 		return
 	}
 	if s.YieldOn != nil && !s.YieldOn(site) {
